@@ -5,7 +5,7 @@ import QuartzModel.Proofs.CronAssembly
 The location is an abstract `Zone`: nothing is assumed about `z.date`, and nothing relates
 `z.offsetAt` at different instants. The retry loop `zoneLoop` is analysed with
 
-* an inductive invariant (`LoopInv`): the cursor is at or above the reading of `prev`, and every
+* an inductive invariant (`ZoneInv`): the cursor is at or above the reading of `prev`, and every
   matching reading at or below the cursor (and above the reading of `prev`) was rejected, i.e. neither
   of the two instants the code can name for it (`time.Date(reading)` and `reading − offset at prev`)
   shows the reading and lies after `prev`;
@@ -36,18 +36,18 @@ theorem fires_iff (z : Zone) (next wall prevSec : Int) :
   simp only [Bool.and_eq_true, decide_eq_true_eq]
 
 /-- neither of the two instants the code can name for the reading `w` shows `w` and lies after prev -/
-def Rejected (z : Zone) (prevSec prevOff w : Int) : Prop :=
+def ZoneRejected (z : Zone) (prevSec prevOff w : Int) : Prop :=
   ¬ (z.date w + z.offsetAt (z.date w) = w ∧ prevSec < z.date w) ∧
   ¬ ((w - prevOff) + z.offsetAt (w - prevOff) = w ∧ prevSec < w - prevOff)
 
 /-- the invariant of the `for` loop at cursor `wall` (search started from `wall0`) -/
-structure LoopInv (f : Fields) (z : Zone) (prevSec prevOff : Int) (wall0 wall : Civil) : Prop where
+structure ZoneInv (f : Fields) (z : Zone) (prevSec prevOff : Int) (wall0 wall : Civil) : Prop where
   ge : wall0 = wall ∨ Civil.lexLt wall0 wall
   rej : ∀ L, Matches f L → Civil.lexLt wall0 L → (L = wall ∨ Civil.lexLt L wall) →
-    Rejected z prevSec prevOff L.toSeconds
+    ZoneRejected z prevSec prevOff L.toSeconds
 
-theorem loopInv_init (f : Fields) (z : Zone) (prevSec prevOff : Int) (wall0 : Civil) :
-    LoopInv f z prevSec prevOff wall0 wall0 := by
+theorem zoneInv_init (f : Fields) (z : Zone) (prevSec prevOff : Int) (wall0 : Civil) :
+    ZoneInv f z prevSec prevOff wall0 wall0 := by
   refine ⟨Or.inl rfl, ?_⟩
   intro L _ h1 h2
   rcases h2 with h2 | h2
@@ -55,19 +55,19 @@ theorem loopInv_init (f : Fields) (z : Zone) (prevSec prevOff : Int) (wall0 : Ci
   · exact absurd h1 (lexLt_asymm _ _ h2)
 
 /-- what an accepted result is -/
-def OkSpec (f : Fields) (z : Zone) (prevSec prevOff : Int) (wall0 : Civil) (r : Int) : Prop :=
+def ZoneOk (f : Fields) (z : Zone) (prevSec prevOff : Int) (wall0 : Civil) (r : Int) : Prop :=
   ∃ (nw : Civil) (next : Int),
     Matches f nw ∧ Civil.lexLt wall0 nw ∧
     (next = z.date nw.toSeconds ∨ next = nw.toSeconds - prevOff) ∧
     next + z.offsetAt next = nw.toSeconds ∧ prevSec < next ∧ r = next * 1000000000 ∧
-    ∀ L, Matches f L → Civil.lexLt wall0 L → Civil.lexLt L nw → Rejected z prevSec prevOff L.toSeconds
+    ∀ L, Matches f L → Civil.lexLt wall0 L → Civil.lexLt L nw → ZoneRejected z prevSec prevOff L.toSeconds
 
-theorem loopInv_step (f : Fields) (hwf : WellFormed f = true) (z : Zone) (prevSec prevOff : Int)
-    (wall0 wall nw : Civil) (hinv : LoopInv f z prevSec prevOff wall0 wall)
+theorem zoneInv_step (f : Fields) (hwf : WellFormed f = true) (z : Zone) (prevSec prevOff : Int)
+    (wall0 wall nw : Civil) (hinv : ZoneInv f z prevSec prevOff wall0 wall)
     (hc : csmNext {} f wall = some (some nw)) :
     Civil.lexLt wall0 nw ∧
       ∀ L, Matches f L → Civil.lexLt wall0 L → Civil.lexLt L nw →
-        Rejected z prevSec prevOff L.toSeconds := by
+        ZoneRejected z prevSec prevOff L.toSeconds := by
   obtain ⟨_, hlt, hleast⟩ := csmNext_spec_some f hwf wall nw hc
   constructor
   · rcases hinv.ge with h | h
@@ -82,10 +82,10 @@ theorem loopInv_step (f : Fields) (hwf : WellFormed f = true) (z : Zone) (prevSe
 /-- partial correctness of the loop, for any fuel and any cursor satisfying the invariant -/
 theorem zoneLoop_spec (f : Fields) (hwf : WellFormed f = true) (z : Zone) (prevSec prevOff : Int)
     (wall0 : Civil) :
-    ∀ (fuel : Nat) (wall : Civil), LoopInv f z prevSec prevOff wall0 wall →
-      (∀ r, zoneLoop {} f z prevSec prevOff fuel wall = .ok r → OkSpec f z prevSec prevOff wall0 r) ∧
+    ∀ (fuel : Nat) (wall : Civil), ZoneInv f z prevSec prevOff wall0 wall →
+      (∀ r, zoneLoop {} f z prevSec prevOff fuel wall = .ok r → ZoneOk f z prevSec prevOff wall0 r) ∧
       (zoneLoop {} f z prevSec prevOff fuel wall = .expired →
-        ∀ L, Matches f L → Civil.lexLt wall0 L → Rejected z prevSec prevOff L.toSeconds) := by
+        ∀ L, Matches f L → Civil.lexLt wall0 L → ZoneRejected z prevSec prevOff L.toSeconds) := by
   intro fuel
   induction fuel with
   | zero =>
@@ -108,7 +108,7 @@ theorem zoneLoop_spec (f : Fields) (hwf : WellFormed f = true) (z : Zone) (prevS
         · exact absurd ⟨L, hL, h⟩ hnone
       | some nw =>
         obtain ⟨hm, _, _⟩ := csmNext_spec_some f hwf wall nw hc
-        obtain ⟨hge, hrej⟩ := loopInv_step f hwf z prevSec prevOff wall0 wall nw hinv hc
+        obtain ⟨hge, hrej⟩ := zoneInv_step f hwf z prevSec prevOff wall0 wall nw hinv hc
         simp only
         by_cases hf1 : fires z (z.date nw.toSeconds) nw.toSeconds prevSec = true
         · simp only [hf1, if_true]
@@ -183,7 +183,7 @@ theorem nextFire_eq (f : Fields) (z : Zone) (prev : Int) (hp : 0 ≤ prev) :
     (Civil.ofSeconds (Int.tdiv prev 1000000000 + z.offsetAt (Int.tdiv prev 1000000000))) = _
   rw [htd, csmFuel_eq]
 
-theorem nextFire_ne_outOfFuel (f : Fields) (hwf : WellFormed f = true) (z : Zone) (prev : Int)
+theorem nextFire_zone_ne_outOfFuel (f : Fields) (hwf : WellFormed f = true) (z : Zone) (prev : Int)
     (hp : 0 ≤ prev) (hz : ∀ u, -100000 ≤ z.offsetAt u ∧ z.offsetAt u ≤ 100000) :
     nextFire {} f z prev ≠ .outOfFuel := by
   rw [nextFire_eq f z prev hp]
@@ -196,18 +196,18 @@ theorem nextFire_ne_outOfFuel (f : Fields) (hwf : WellFormed f = true) (z : Zone
 /-- an accepted result of `nextFire` -/
 theorem nextFire_ok_spec (f : Fields) (hwf : WellFormed f = true) (z : Zone) (prev : Int)
     (hp : 0 ≤ prev) (r : Int) (h : nextFire {} f z prev = .ok r) :
-    OkSpec f z (prev / 1000000000) (z.offsetAt (prev / 1000000000))
+    ZoneOk f z (prev / 1000000000) (z.offsetAt (prev / 1000000000))
       (Civil.ofSeconds (prev / 1000000000 + z.offsetAt (prev / 1000000000))) r := by
   rw [nextFire_eq f z prev hp] at h
-  exact (zoneLoop_spec f hwf z _ _ _ _ _ (loopInv_init f z _ _ _)).1 r h
+  exact (zoneLoop_spec f hwf z _ _ _ _ _ (zoneInv_init f z _ _ _)).1 r h
 
 theorem nextFire_expired_spec (f : Fields) (hwf : WellFormed f = true) (z : Zone) (prev : Int)
     (hp : 0 ≤ prev) (h : nextFire {} f z prev = .expired) :
     ∀ L, Matches f L →
       Civil.lexLt (Civil.ofSeconds (prev / 1000000000 + z.offsetAt (prev / 1000000000))) L →
-      Rejected z (prev / 1000000000) (z.offsetAt (prev / 1000000000)) L.toSeconds := by
+      ZoneRejected z (prev / 1000000000) (z.offsetAt (prev / 1000000000)) L.toSeconds := by
   rw [nextFire_eq f z prev hp] at h
-  exact (zoneLoop_spec f hwf z _ _ _ _ _ (loopInv_init f z _ _ _)).2 h
+  exact (zoneLoop_spec f hwf z _ _ _ _ _ (zoneInv_init f z _ _ _)).2 h
 
 /-- the first candidate is accepted when `time.Date` and the offset at the candidate agree with the
 offset in force at prev -/
